@@ -11,6 +11,8 @@ mod offset;
 pub(crate) mod parse;
 pub(crate) mod range;
 pub(crate) mod revspec;
+#[cfg(stgit_verif)]
+pub(crate) mod verif;
 
 #[cfg(test)]
 mod tests;
